@@ -436,6 +436,13 @@ add("C03", "fixed", "lax-raises-render:ContextDepthError:render", "repair 68b628
     "found by C03 once it rendered self-recursive partials in tolerant environments. The render now stops there and the error follows the mode",
     [{"source": "a{% render 'selfr' %}z", "data": V.enc({}), "env": {"extra": True, "limits": {"context_depth_limit": 6}}}], "fee35e1")
 
+add("C04", "fixed", "reparse-error:odd-names-and-nested-paths", "a name ending in a question mark (a word to the expression tokenizer) was serialised as the quoted root ['ok?'], which filter arguments and "
+    "include / render bound variables reject; a nested path starting with an index (a[[1]]) lost its inner brackets (a[1])",
+    [c04("{{ h | map: ok? }}"), c04("{% include 'p' with ok? %}"), c04("{{ a[[1]] }}")], "8d7a169")
+add("C14", "fixed", "path:raises-LiquidSyntaxError", "a dotted property that spells a keyword of the expression grammar (d.limit, d.if, d.empty, d.in, d.with ... 22 words) was a syntax error; the bracketed "
+    "spelling of the same key worked",
+    [{"kind": "path", "segs": ["d", "limit"], "data": V.enc({"d": {"limit": "V-limit"}}), "flags": {}, "async": False}], "195c53b")
+
 if __name__ == "__main__":
     # further entries are appended by tools/mkfindings.py from triaged replay files and kept in findings_extra.json
     extra_path = os.path.join(VERIF, "tools", "findings_extra.json")
